@@ -671,7 +671,8 @@ impl<'a, T: Serializable> MemoryMapped<'a> for MappedSlice<'a, T> {
         }
         let slice: &[u64] = map.as_ref();
         let len = slice[offset] as usize;
-        if offset + 1 + len * T::elements() > map.len() {
+        // `offset < map.len()`. The length comes from the file: compare without arithmetic that can overflow.
+        if len > (map.len() - offset - 1) / T::elements() {
             return Err(Error::new(ErrorKind::UnexpectedEof, "The file is too short"));
         }
         let source: &[u64] = &slice[offset + 1 ..];
@@ -770,7 +771,8 @@ impl<'a> MemoryMapped<'a> for MappedBytes<'a> {
         }
         let slice: &[u64] = map.as_ref();
         let len = slice[offset] as usize;
-        if offset + 1 + bits::bytes_to_words(len) > map.len() {
+        // `offset < map.len()`. The length comes from the file: compare without arithmetic that can overflow.
+        if len > bits::words_to_bytes(map.len() - offset - 1) {
             return Err(Error::new(ErrorKind::UnexpectedEof, "The file is too short"));
         }
         let source: &[u64] = &slice[offset + 1 ..];
@@ -857,7 +859,8 @@ impl<'a> MemoryMapped<'a> for MappedStr<'a> {
         }
         let slice: &[u64] = map.as_ref();
         let len = slice[offset] as usize;
-        if offset + 1 + bits::bytes_to_words(len) > map.len() {
+        // `offset < map.len()`. The length comes from the file: compare without arithmetic that can overflow.
+        if len > bits::words_to_bytes(map.len() - offset - 1) {
             return Err(Error::new(ErrorKind::UnexpectedEof, "The file is too short"));
         }
         let source: &[u64] = &slice[offset + 1 ..];
